@@ -208,6 +208,7 @@ fn fulfill_promise(
     };
 
     // Trigger handlers synchronously
+    let _handlers_guard = guard_handlers(interp, &handlers);
     for handler in handlers {
         trigger_handler(interp, handler, &value, true)?;
     }
@@ -244,6 +245,7 @@ fn reject_promise(
     }
 
     // Trigger handlers synchronously
+    let _handlers_guard = guard_handlers(interp, &handlers);
     for handler in handlers {
         trigger_handler(interp, handler, &reason, false)?;
     }
@@ -269,6 +271,22 @@ pub fn reject_promise_value(
     reason: JsValue,
 ) -> Result<(), JsError> {
     reject_promise(interp, promise, reason)
+}
+
+/// Keep the handlers taken out of a settled promise alive until each of them has run:
+/// they are no longer reachable from the promise, and the earlier ones run script code
+fn guard_handlers(interp: &mut Interpreter, handlers: &[PromiseHandler]) -> Guard<JsObject> {
+    let guard = interp.heap.create_guard();
+    for handler in handlers {
+        guard.guard(handler.result_promise.clone());
+        if let Some(JsValue::Object(ref cb)) = handler.on_fulfilled {
+            guard.guard(cb.clone());
+        }
+        if let Some(JsValue::Object(ref cb)) = handler.on_rejected {
+            guard.guard(cb.clone());
+        }
+    }
+    guard
 }
 
 /// Trigger a promise handler
